@@ -249,6 +249,7 @@ func (d *mapDecoder) DecodePath(ctx *RuntimeContext, cursor, depth int64) ([][]b
 		if err != nil {
 			return nil, 0, err
 		}
+		valueStart := cursor
 		if found {
 			if child != nil {
 				oldPath := ctx.Option.Path.node
@@ -275,6 +276,14 @@ func (d *mapDecoder) DecodePath(ctx *RuntimeContext, cursor, depth int64) ([][]b
 				return nil, 0, err
 			}
 			cursor = c
+		}
+		if _, recursive := ctx.Option.Path.node.(*PathRecursiveNode); recursive {
+			// recursive descent: everything of that name further down, after the member itself
+			paths, _, err := d.valueDecoder.DecodePath(ctx, valueStart, depth)
+			if err != nil {
+				return nil, 0, err
+			}
+			ret = append(ret, paths...)
 		}
 		cursor = skipWhiteSpace(buf, cursor)
 		if buf[cursor] == '}' {
